@@ -98,6 +98,13 @@ def genOps2 : List (String × R String) := [
   ("g:b58_addr", do
       let (ty, pfx) ← tyPfx; let h ← bytes
       pure (ansG hexStr (Gen.address_to_string Crypto.sha256 Spec.B58.encode ty pfx pfx h))),
+  ("g:sw_addr", do
+      let hrp ← netHrp; let v ← nat; let prog ← bytes
+      pure (ansG (fun (r : Option (List Char)) => match r with | some cs => hexStr (String.ofList cs) | none => "none")
+        (Gen.segwit_to_string hrp.toList (v : Int) prog))),
+  ("g:sw_decode", do
+      let hrp ← netHrp; let v ← nat; let a ← str
+      pure (ansG hex (Gen.segwit_address_to_hash hrp.toList (v : Int) a.toList))),
   ("g:pub_addr", do
       -- PublicKey.get_address(compressed).to_string(): the stored hex string, then bytes.fromhex of it inside to_string
       let (ty, pfx) ← tyPfx; let x ← bytes; let y ← bytes; let c ← bool
